@@ -1,6 +1,8 @@
 #include "../engine/vx.h"
-extern const vx_harness h_once;
+extern const vx_harness h_once, h_sema, h_q01;
 const vx_harness *const vx_harnesses[] = {
 	&h_once,
+	&h_sema,
+	&h_q01,
 	0
 };
